@@ -51,7 +51,7 @@ ASSUMPTIONS = [
 N_SLOTS = 3
 
 
-EXPECTED_PROBES = ['matrix_assigned_to_a_loaded_model', 'model_constructed_from_a_distance_file', 'distance_file_of_the_model_rewritten', 'loaded_model_poked_and_compared', 'distance_fn_replaced_through_setter', 'receiver_constructed_with_its_own_distance_file', 'subgraph_poked_between_saves', 'labels_propagated_between_saves', 'non_float64_training_data', 'load_checked', 'load_of_save_made_after_a_failed_save', 'loaded_into_differently_constructed_model', 'matrix_pairs_run', 'original_refitted_after_save', 'original_used_between_saves', 'path_overwritten', 'prediction_raises_consistently', 'refit_raised', 'restart_checked_', 'save_raised_and_original_compared', 'save_returned_normally_although_fault_fired', 'scheduled_fault_did_not_fire', 'second_generation_load', 'successful_save_after_failed_save']
+EXPECTED_PROBES = ['flag_switched_while_the_model_holds_a_matrix', 'matrix_assigned_to_a_loaded_model', 'model_constructed_from_a_distance_file', 'distance_file_of_the_model_rewritten', 'loaded_model_poked_and_compared', 'distance_fn_replaced_through_setter', 'receiver_constructed_with_its_own_distance_file', 'subgraph_poked_between_saves', 'labels_propagated_between_saves', 'non_float64_training_data', 'load_checked', 'load_of_save_made_after_a_failed_save', 'loaded_into_differently_constructed_model', 'matrix_pairs_run', 'original_refitted_after_save', 'original_used_between_saves', 'path_overwritten', 'prediction_raises_consistently', 'refit_raised', 'restart_checked_', 'save_raised_and_original_compared', 'save_returned_normally_although_fault_fired', 'scheduled_fault_did_not_fire', 'second_generation_load', 'successful_save_after_failed_save']
 
 SLOW_ARMS = ("restart", "matrix")
 
@@ -136,6 +136,8 @@ def gen_case(rng, arm, tier, k=0):
             elif rng.random() < 0.15:
                 # the metric function is replaced through the public setter (name and function disagree)
                 ops.append(["set_fn", rng.randrange(47)])
+            elif base.get("pre") and rng.random() < 0.4:
+                ops.append(["set_flag"])  # pre_computed_distance switched through the public property
             elif base.get("pre_from_file") and rng.random() < 0.5:
                 ops.append(["rewrite_dfile"])  # the distance file the model was built from changes on disk
             elif gens and rng.random() < 0.3:
@@ -535,6 +537,13 @@ def run_case(case):
                         raise Stop(violation("loaded-behaves-differently", "after %s the loaded model predicts differently from the model it was saved from on pool samples %s" % (op[2], diff[:5]), **facts))
                 bump(out.probes, "loaded_model_poked_and_compared")
                 norm.append(("poke_loaded", op[2]))
+            elif kop == "set_flag":
+                if not case["pre"]:
+                    continue
+                out.steps += 1
+                m.pre_computed_distance = not m.pre_computed_distance
+                bump(out.probes, "flag_switched_while_the_model_holds_a_matrix")
+                norm.append(("set_flag",))
             elif kop == "set_fn":
                 if case["pre"] or case.get("dtype", "float64") != "float64":
                     continue
